@@ -62,12 +62,27 @@ def run(tier):
     traces.append({"id": tid, "recs": tc.track_records(seed)})
     nrec += len(traces[-1]["recs"]) + len(traces[-2]["recs"])
     chk.count(nrec, range(nrec))
-    slim = [{"id": t["id"], "recs": [{k: v for k, v in r.items() if k != "dbg"} for r in t["recs"]]} for t in traces]
-    accepted, where, tres = trace.validate("Trace_Time", "Trace_Time.cfg", slim, "C12-trace", timeout=3000)
-    chk.cov["tlc_runs"].append({"config": "Trace_Time", "traces": len(traces), "records": nrec,
-                                "accepted": len(accepted), "distinct_states": tres.distinct, "wall_s": round(tres.wall, 1)})
-    chk.cov["states"] += tres.distinct
-    chk.cov["transitions"] += tres.generated
+    # validate in batches of at most ~250 000 records per JVM (the deserialised traces live in TLC's heap)
+    accepted, where = set(), {}
+    batch, size, batches = [], 0, []
+    for t in traces:
+        batch.append(t)
+        size += len(t["recs"])
+        if size >= 250000:
+            batches.append(batch)
+            batch, size = [], 0
+    if batch:
+        batches.append(batch)
+    for bi, bt in enumerate(batches):
+        slim = [{"id": t["id"], "recs": [{k: v for k, v in r.items() if k != "dbg"} for r in t["recs"]]} for t in bt]
+        acc, wh, tres = trace.validate("Trace_Time", "Trace_Time.cfg", slim, "C12-trace", timeout=3000)
+        accepted |= acc
+        where.update(wh)
+        chk.cov["tlc_runs"].append({"config": "Trace_Time batch %d" % bi, "traces": len(bt),
+                                    "records": sum(len(t["recs"]) for t in bt), "accepted": len(acc),
+                                    "distinct_states": tres.distinct, "wall_s": round(tres.wall, 1)})
+        chk.cov["states"] += tres.distinct
+        chk.cov["transitions"] += tres.generated
     chk.validated(len(accepted))
     for t in traces:
         if str(t["id"]) not in accepted:
